@@ -655,4 +655,20 @@ def rule_h(repo, res, m):
             if ((names_of(l, 0) and names_of(r, 1)) or (names_of(l, 1) and names_of(r, 0))) and any(isinstance(c, ast.Call) and norm(c.func) == "parser.error" for b in i.body for c in ast.walk(b)):
                 refused = True
     res.check(refused, "C25.h", "names:patterns-naming-every-picture-alike-are-refused", "%s:parse_args" % vm.rel, "parse_args does not compare the file names formed from `args.output % 0` and `args.output % 1`: with the index in the extension ('pic.%d') both are 'pic.raw'/'pic.json', every picture overwrites the previous one and the command still exits 0", by="if names(output % 0) == names(output % 1): parser.error(...)")
+    # ... and since other templates repeat a name only for later numbers ('%.1s': 1 and 10..19; '%e': 1 and 10), the
+    # writer itself refuses a name it has used before in this run (D12)
+    cm_, ccls = repo.cls("scripts.vc2_bitstream_validator:BitstreamValidator")
+    op = class_methods(ccls)["_output_picture"]
+    guard = False
+    wr = [c for c in ast.walk(op) if isinstance(c, ast.Call) and dotted(c.func) == "write"]
+    for i in ast.walk(op):
+        if isinstance(i, ast.If) and isinstance(i.test, ast.Compare) and len(i.test.ops) == 1 and isinstance(i.test.ops[0], ast.In) and norm(i.test.comparators[0]).startswith("self.") and any(isinstance(r, ast.Raise) for r in ast.walk(i)):
+            coll = norm(i.test.comparators[0])
+            item = norm(i.test.left)
+            grows = any(isinstance(c, ast.Call) and isinstance(c.func, ast.Attribute) and c.func.attr in ("append", "add") and norm(c.func.value) == coll and c.args and norm(c.args[0]) == item for c in ast.walk(op))
+            before = bool(wr) and i.lineno < min(w.lineno for w in wr)
+            derived = any(isinstance(a, ast.Assign) and norm(a.targets[0]) == item and isinstance(a.value, ast.Call) and dotted(a.value.func) in ("get_metadata_and_picture_filenames", "os.path.splitext", "splitext") for a in ast.walk(op)) or "get_metadata_and_picture_filenames" in item
+            if grows and before and derived:
+                guard = True
+    res.check(guard, "C25.h", "names:no-picture-overwritten-within-a-run", "%s:BitstreamValidator._output_picture" % cm_.rel, "_output_picture does not refuse a file name it has already written in this run (membership test on a collection of the names formed by get_metadata_and_picture_filenames, before write(), growing on every call): templates such as 'pic_%.1s.raw' or 'pic_%e' name picture 10 like picture 1, the earlier picture is overwritten and the command exits 0", by="if names in self.<written>: raise; self.<written>.append(names); write(...)")
     res.check(base_ok, "C25.h", "names:extension-stripped-from-last-component-only", where, "the base name must be os.path.splitext(name)[0]: string splitting on '.' also cuts at a dot in a directory name ('out.v1/picture_%d'), which sends every picture to one file outside the requested directory", by="os.path.splitext(name)[0]")
